@@ -31,6 +31,11 @@ CURATED = [
      [[('a.f', [('try', 'b.g', [('call', 'a.g', [('raise',)])]), ('call', 'b.g', [('raise',)])])]]),
     ([M(1, 'a', 'f', 'method'), L(2, 'a', 'f_second', 'line'), L(3, 'a', 'f_last', 'line')],
      [[('a.f', [('line',)]), ('a.f', [('line',)])], [('a.f', [])], [('a.f', [])]]),
+    # the service removes every tracepoint (or all but one) while spans opened by them are still pending
+    ([M(1, 'a', 'f', 'method'), L(2, 'a', 'f_second', 'line'), L(3, 'a', 'f_last', 'line')],
+     [[('a.f', [('line',), ('cfg', 0), ('line',)])], [('a.f', [('cfg', 255), ('line',)])]]),
+    ([M(1, 'a', 'f', 'method'), M(2, 'a', 'g', 'method')],
+     [[('a.f', [('call', 'a.g', [('cfg', 1), ('line',)]), ('cfg', 0), ('call', 'a.g', [])])]]),
 ]
 
 
@@ -150,6 +155,7 @@ def run(c):
     # capture tracepoints (deferred snapshots): completed once, on their thread, with the opening invocation's result
     traces, meta = c03.run_scenarios(c, rng, wd, 60 if quick else 1500, 0.8, 'captures', 'k', capture=True,
                                      curated=[([M(1, 'a', 'f', 'capture')], [[('a.f', [('call', 'a.f', [('line',)])])]]),
+                                              ([M(1, 'a', 'f', 'capture')], [[('a.f', [('line',), ('cfg', 0), ('line',)])]]),
                                               ([M(1, 'a', 'g', 'capture'), L(2, 'a', 'f_call', 'capture')],
                                                [[('a.f', [('call', 'a.g', [('line',)]), ('try', 'a.g', [('raise',)])])]])])
     c03.validate(c, traces, meta, lambda m: m['closes'] >= 1)
